@@ -19,7 +19,8 @@
 
    Invariants (every reachable state):  AtMostOnce - no tag twice;  Ordered - tags appear in pipeline order;
    at the end state ExactlyOnce - every processor the type defines occurs exactly once on the write side and once on the read
-   side (Fixed), and for the pinned mechanism exactly the NestedCompoundCE paths deviate (LegacyOnlyNestedCompound).
+   side (Fixed), and for the pinned mechanism exactly the NestedCompoundCE paths and the ImplColumnExpressionDropsDecorator
+   type configurations deviate (LegacyOnlyNestedCompound).
    The Done action prints the expected value and Python-side event list of the case for the replay (checks/c09.py). *)
 EXTENDS Integers, Sequences, FiniteSets, TLC, Json
 CONSTANTS Types, Writes, Reads
@@ -68,6 +69,12 @@ PyWrite(t, w) == LET h == IF Literal(w) THEN "l" ELSE "b"
                  IN [i \in 1..Len(d.chain) |-> Tag(h, d.chain[i])] \o (IF d.impl = "P" THEN <<Tag(h, "P")>> ELSE <<>>)
 Rev(q) == [i \in 1..Len(q) |-> q[Len(q) + 1 - i]]
 PyRead(t) == LET d == TypeDef(t) IN (IF d.impl = "P" THEN <<Tag("r", "P")>> ELSE <<>>) \o Rev([i \in 1..Len(d.chain) |-> Tag("r", d.chain[i])])
+\* Pinned mechanism, second deviation (finding ImplColumnExpressionDropsDecorator): the result type of a column is the type of the
+\* expression column_expression returns; TypeDecorator.column_expression delegates to the impl type, whose expression is typed as
+\* the IMPL (the documented `type_=self` idiom) - the decorators' process_result_value is then never attached, while on the way in
+\* process_bind_param is (the bound parameter keeps the decorator's type inside bind_expression).
+DropsDecorators(t) == TypeDef(t).sqlx = "impl" /\ TypeDef(t).chain # <<>>
+PyReadMech(t, fixed) == IF ~fixed /\ DropsDecorators(t) THEN (IF TypeDef(t).impl = "P" THEN <<Tag("r", "P")>> ELSE <<>>) ELSE PyRead(t)
 
 \* phases: "pyw" (idx = next Python write stage) -> "be" -> "walk" (idx = next path node) -> "pyr" -> "done"
 \* a RETURNING read of an INSERT is written by that same statement
@@ -109,12 +116,12 @@ Walk == /\ ph = "walk"
                                            ELSE need /\ p[idx - 1] = "c0"   \* pinned: only a compound at member index 0 inherits
         /\ UNCHANGED <<cs, fx, ev>>
 PyR == /\ ph = "pyr"
-       /\ LET st == PyRead(cs.t)
+       /\ LET st == PyReadMech(cs.t, fx)
           IN IF idx <= Len(st)
              THEN /\ val' = Append(val, st[idx]) /\ ev' = Append(ev, st[idx]) /\ idx' = idx + 1 /\ ph' = ph
              ELSE /\ ph' = "done" /\ idx' = 1 /\ UNCHANGED <<val, ev>>
                   /\ PrintT(ToJson([t |-> cs.t, w |-> cs.w, r |-> cs.r, fixed |-> fx, val |-> val, ev |-> ev,
-                                    nestedLater |-> NestedLater(Path(cs.r))]))
+                                    nestedLater |-> NestedLater(Path(cs.r)), dropsDecorators |-> DropsDecorators(cs.t)]))
        /\ UNCHANGED <<cs, fx, need>>
 Done == ph = "done" /\ UNCHANGED vars
 Next == PyW \/ BE \/ Walk \/ PyR \/ Done
@@ -128,12 +135,13 @@ Pos(q, x) == CHOOSE i \in 1..Len(q) : q[i] = x
 Ordered == /\ \A i \in 1..Len(val) : Count(Canon(cs.t, cs.w), val[i]) = 1
            /\ \A i, j \in 1..Len(val) : i < j => Pos(Canon(cs.t, cs.w), val[i]) < Pos(Canon(cs.t, cs.w), val[j])
 \* result processing mirrors bind processing: the decorator applied first on the way in is applied last on the way out
-Mirror == ph = "done" => LET d == TypeDef(cs.t)
+Mirror == (ph = "done" /\ fx) => LET d == TypeDef(cs.t)
                              w == [i \in 1..Len(d.chain) |-> Pos(val, Tag(IF Literal(cs.w) THEN "l" ELSE "b", d.chain[i]))]
                              r == [i \in 1..Len(d.chain) |-> Pos(val, Tag("r", d.chain[i]))]
                          IN \A i, j \in 1..Len(d.chain) : i < j => (w[i] < w[j] /\ r[i] > r[j])
 ExactlyOnce == (ph = "done" /\ fx) => val = Canon(cs.t, cs.w)
-LegacyOnlyNestedCompound == (ph = "done" /\ ~fx) => ((val # Canon(cs.t, cs.w)) <=> (HasSqlx(cs.t) /\ NestedLater(Path(cs.r))))
+LegacyOnlyNestedCompound == (ph = "done" /\ ~fx) =>
+   ((val # Canon(cs.t, cs.w)) <=> ((HasSqlx(cs.t) /\ NestedLater(Path(cs.r))) \/ DropsDecorators(cs.t)))
 \* the Python-side event list is the value without the SQL-side tags
 EventsAreValue == ph = "done" => ev = SelectSeq(val, LAMBDA x : x \notin {"BE", "CE"})
 =============================================================================
